@@ -141,6 +141,20 @@ func ruleLALRK(c *Ctx) {
 					}
 				}
 			}
+			// the id counter lives as long as the cache: both are fields of the builder
+			if st, ok := idStore.(*ssa.Store); ok {
+				key2 := "lalr.trieBuilder.minimize:id-scope"
+				src := st.Val
+				if ld, ok := src.(*ssa.UnOp); ok && ld.Op == token.MUL {
+					if fa, ok := ld.X.(*ssa.FieldAddr); ok && strings.HasSuffix(fa.X.Type().String(), "lalr.trieBuilder") {
+						c.Ok(rule, key2, st.Pos(), "node ids come from a counter field of the trie builder, which also owns the cross-conflict cache")
+					} else {
+						c.Bad(rule, key2, st.Pos(), "node ids come from %s, which does not live as long as the builder's cache: ids restart for every conflict while cached nodes of earlier conflicts keep theirs, so parents of different conflicts collide in the cache", normalizePhi(vpath(ld.X)))
+					}
+				} else {
+					c.Bad(rule, key2, st.Pos(), "node ids are not read from a counter field of the trie builder (%s)", normalizePhi(vpath(src)))
+				}
+			}
 			switch {
 			case idStore == nil || publish == nil:
 				c.Undec(rule, key, f.Pos(), "id assignment (%v) or node publication *ret = *n (%v) not found", idStore != nil, publish != nil)
